@@ -358,7 +358,9 @@ pub fn gen_proxy(seed: u64, prop: &str, tier: &str) -> Value {
     let mut r = Rng::derive(seed, "work");
     let nprocs = 2 + r.below(4) as usize;
     let procs = gen_procs(&mut r, nprocs, true);
-    let o = RuleOpts { allow_upper_paths: prop == "C02", allow_dup_names: false, allow_missing_sections: true, allow_dangling: true };
+    let dup_names = prop == "C02" && r.chance(1, 6);
+    // rule-document corner cases (missing sections, upper-case paths, duplicate names) belong to C02's check
+    let o = RuleOpts { allow_upper_paths: prop == "C02", allow_dup_names: dup_names, allow_missing_sections: prop == "C02", allow_dangling: true };
     let mut steps = Vec::new();
     let nphases = 1 + r.below(if tier == "thorough" { 4 } else { 3 });
     let mut tokn = 0u64;
@@ -408,6 +410,9 @@ pub fn gen_proxy(seed: u64, prop: &str, tier: &str) -> Value {
         }
         steps.push(json!({"t": "clients", "conns": conns}));
     }
+    if prop == "C02" {
+        return gen_c02(seed, &mut r, procs, o, dup_names, tier);
+    }
     let oracles: Vec<&str> = match prop {
         "C01" => vec!["C01", "C03"],
         "C03" => vec!["C03", "C01"],
@@ -423,5 +428,132 @@ pub fn gen_proxy(seed: u64, prop: &str, tier: &str) -> Value {
         "knobs": knobs, "procs": procs, "users": users_json(), "steps": steps, "oracles": oracles,
         "config": {"pollKeyStatusIntervalInSeconds": 1 + r.below(15)}, "settle_ms": 1000,
         "faulty": false
+    })
+}
+
+/// C02: rule-heavy documents; every request set is sent twice, the second time after the host has served an
+/// equivalent permuted document (lists shuffled, new id); plus direct evaluations of the decision function.
+fn permute_item(r: &mut Rng, item: &Value, new_id: &str) -> Value {
+    let mut it = item.clone();
+    it["id"] = json!(new_id);
+    for sect in ["privileges", "roles", "identities", "roleAssignments"] {
+        if let Some(a) = it["rules"][sect].as_array_mut() {
+            r.shuffle(a);
+            for e in a.iter_mut() {
+                for inner in ["privileges", "identities"] {
+                    if let Some(x) = e[inner].as_array_mut() {
+                        r.shuffle(x);
+                    }
+                }
+            }
+        }
+    }
+    it
+}
+
+pub fn c02_urls(r: &mut Rng, item: &Value) -> Vec<String> {
+    let mut urls = Vec::new();
+    let privs = item["rules"]["privileges"].as_array().cloned().unwrap_or_default();
+    for p in privs.iter() {
+        let path = p["path"].as_str().unwrap_or("/");
+        let mut q: Vec<String> = Vec::new();
+        if let Some(qp) = p["queryParameters"].as_object() {
+            for (k, v) in qp {
+                let vs = v.as_str().unwrap_or("");
+                match r.below(6) {
+                    0 => {}                                                        // parameter missing
+                    1 => q.push(format!("{}={}", k, "other")),                      // wrong value
+                    2 => q.push(format!("{}={}", flip_case(r, k), flip_case(r, vs))), // case variant
+                    3 => {
+                        q.push(format!("{}={}", k, vs));
+                        q.push(format!("extra={}", r.below(9)));
+                    }
+                    _ => q.push(if vs.is_empty() && r.chance(1, 2) { k.clone() } else { format!("{}={}", k, vs) }),
+                }
+            }
+        }
+        r.shuffle(&mut q);
+        let pth = match r.below(4) {
+            0 => flip_case(r, path),
+            1 => format!("{}/sub", path.trim_end_matches('/')),
+            2 => path.to_lowercase(),
+            _ => path.to_string(),
+        };
+        urls.push(if q.is_empty() { pth } else { format!("{}?{}", pth, q.join("&")) });
+    }
+    urls.push("/unrelated/path".to_string());
+    urls.push(format!("{}?{}", r.pick(&PATHS).replace("..", "x"), r.pick(&QUERIES)));
+    urls
+}
+
+fn gen_c02(seed: u64, r: &mut Rng, procs: Value, o: RuleOpts, dup_names: bool, tier: &str) -> Value {
+    let nprocs = procs.as_array().unwrap().len() as u64;
+    let mut steps = Vec::new();
+    let mut tokn = 0u64;
+    let nphases = 1 + r.below(if tier == "thorough" { 3 } else { 2 });
+    let mut direct = Vec::new();
+    for ph in 0..nphases {
+        let mut doc = gen_doc(r, &procs, &o, ph * 2);
+        if doc["version"] != "2.0" || !doc["authorizationRules"].is_object() {
+            let mut rules = serde_json::Map::new();
+            for ep in ["imds", "wireserver", "hostga"] {
+                let mode = *r.pick(&["enforce", "audit", "Enforce"]);
+                let da = *r.pick(&["allow", "deny"]);
+                rules.insert(ep.to_string(), gen_item(r, &format!("{}-{}", ep, ph * 2), &procs, &o, mode, da));
+            }
+            doc = doc_v2(true, Some(Value::Object(rules)));
+        }
+        // requests derived from the rules
+        let mut conns = Vec::new();
+        for ep in ["imds", "wireserver", "hostga"] {
+            let item = doc["authorizationRules"][ep].clone();
+            if !item.is_object() {
+                continue;
+            }
+            let urls = c02_urls(r, &item);
+            direct.push(json!({"item": item, "urls": urls}));
+            let dst = match ep { "imds" => "imds", "wireserver" => "wire", _ => "ga" };
+            for _ in 0..1 + r.below(2) {
+                let p = if dst == "imds" { r.below(nprocs) } else { 0 }; // proc 0 is root
+                let mut reqs = Vec::new();
+                for u in urls.iter() {
+                    if r.chance(2, 3) {
+                        tokn += 1;
+                        reqs.push(json!({"method": "GET", "target": u, "headers": [["Host", host_name_of(dst)], ["Metadata", "true"]], "tok": format!("t{}", tokn)}));
+                    }
+                }
+                if !reqs.is_empty() {
+                    conns.push(json!({"proc": p, "dst": dst, "start_ms": r.below(10), "pipeline": false, "reqs": reqs}));
+                }
+            }
+        }
+        steps.push(json!({"t": "doc", "doc": doc}));
+        steps.push(json!({"t": "wait_polls", "n": 2, "max_s": 200}));
+        steps.push(json!({"t": "clients", "conns": conns, "twin_group": ph}));
+        // the equivalent permuted document, same requests under fresh tokens
+        let mut doc2 = doc.clone();
+        for ep in ["imds", "wireserver", "hostga"] {
+            if doc["authorizationRules"][ep].is_object() {
+                doc2["authorizationRules"][ep] = permute_item(r, &doc["authorizationRules"][ep], &format!("{}-{}", ep, ph * 2 + 1));
+            }
+        }
+        let mut conns2 = conns.clone();
+        for c in conns2.iter_mut() {
+            for q in c["reqs"].as_array_mut().unwrap().iter_mut() {
+                let t = q["tok"].as_str().unwrap().to_string();
+                q["twin_of"] = json!(t);
+                q["tok"] = json!(format!("{}b", t));
+            }
+        }
+        steps.push(json!({"t": "doc", "doc": doc2}));
+        steps.push(json!({"t": "wait_polls", "n": 2, "max_s": 200}));
+        steps.push(json!({"t": "clients", "conns": conns2, "twin_group": ph}));
+    }
+    steps.push(json!({"t": "rbac_direct", "cases": direct, "procs": (0..nprocs).collect::<Vec<_>>()}));
+    let knobs = gen_knobs(r, false);
+    json!({
+        "scenario": "proxy:C02", "seed": seed, "family": "proxy", "prop": "C02", "dup_names": dup_names,
+        "knobs": knobs, "procs": procs, "users": users_json(), "steps": steps, "oracles": ["C02"],
+        "config": {"pollKeyStatusIntervalInSeconds": 1 + r.below(5)}, "settle_ms": 500, "faulty": false
     })
 }
